@@ -11,6 +11,7 @@
    can fail - over both settings of noclobber [nc], and over every list of
    redirections [rs]. *)
 From Yv Require Import Common.Base C09.Kernel C09.Model C09.Spec C09.Proofs.
+From Yv Require Import Gen.Gen_Consts.
 
 (* -- the kernel model allocates the least unused descriptor ------------------- *)
 Theorem min_unused_spec : forall c t,
@@ -287,6 +288,12 @@ Proof. exact ProofsSpec.oracle_persisted_sound. Qed.
 
 (* non-vacuity of the hypotheses: see Examples.v (hypotheses_satisfiable, ...) *)
 
+(* TIE BY TRANSLATION: the lowest descriptor the shell keeps for itself is the
+   constant the source declares now (translator/consts.py reads MIN_INTERNAL_FD
+   out of yash-env/src/io.rs on every run) *)
+Theorem min_internal_fd_is_source : MIN_INTERNAL_FD = gen_min_internal_fd.
+Proof. reflexivity. Qed.
+
 Print Assumptions min_unused_spec.
 Print Assumptions undo_restores.
 Print Assumptions undo_restores_table.
@@ -317,3 +324,4 @@ Print Assumptions preserve_keeps_view.
 Print Assumptions oracle_restored_sound.
 Print Assumptions oracle_internal_sound.
 Print Assumptions oracle_persisted_sound.
+Print Assumptions min_internal_fd_is_source.
